@@ -154,8 +154,8 @@ func (h *Handler) newConn(cx *layer4.Connection) *proxyprotocol.Conn {
 
 // Handle handles the connections.
 func (h *Handler) Handle(cx *layer4.Connection, next layer4.Handler) error {
-	conn := h.newConn(cx)
-	if conn == nil {
+	pconn := h.newConn(cx)
+	if pconn == nil {
 		h.logger.Debug("untrusted party not allowed",
 			zap.String("remote", cx.RemoteAddr().String()),
 			zap.Strings("allow", h.Allow),
@@ -163,8 +163,16 @@ func (h *Handler) Handle(cx *layer4.Connection, next layer4.Handler) error {
 		return next.Handle(cx)
 	}
 
-	if _, err := conn.ProxyHeader(); err != nil {
+	hdr, err := pconn.ProxyHeader()
+	if err != nil {
 		return fmt.Errorf("parsing the PROXY header: %v", err)
+	}
+
+	// "PROXY UNKNOWN" declares no addresses: the real connection endpoints remain
+	// valid, but the library reports an empty TCP address (":0") for such a header.
+	var conn net.Conn = pconn
+	if v1, ok := hdr.(*proxyprotocol.HeaderV1); ok && v1.SrcIP == nil && v1.DestIP == nil {
+		conn = unknownConn{Conn: pconn, underlying: cx.Conn}
 	}
 	h.logger.Debug("received the PROXY header",
 		zap.String("remote", conn.RemoteAddr().String()),
@@ -182,6 +190,16 @@ func (h *Handler) Handle(cx *layer4.Connection, next layer4.Handler) error {
 
 	return next.Handle(cx.Wrap(conn))
 }
+
+// unknownConn is a connection whose PROXY header declared no addresses:
+// it reports the addresses of the underlying connection.
+type unknownConn struct {
+	*proxyprotocol.Conn
+	underlying net.Conn
+}
+
+func (c unknownConn) RemoteAddr() net.Addr { return c.underlying.RemoteAddr() }
+func (c unknownConn) LocalAddr() net.Addr  { return c.underlying.LocalAddr() }
 
 // UnmarshalCaddyfile sets up the Handler from Caddyfile tokens. Syntax:
 //
